@@ -52,14 +52,16 @@ type simAIO struct {
 	cqes []*bus.CQE[t_aio.Submission, t_aio.Completion]
 }
 
-func (a *simAIO) String() string                                  { return "AIO(verif)" }
-func (a *simAIO) Start() error                                    { return nil }
-func (a *simAIO) Stop() error                                     { return nil }
-func (a *simAIO) Shutdown()                                       {}
-func (a *simAIO) Errors() <-chan error                            { return nil }
-func (a *simAIO) Signal(<-chan interface{}) <-chan interface{}    { panic("not used") }
-func (a *simAIO) Flush(int64)                                     {}
-func (a *simAIO) EnqueueCQE(c *bus.CQE[t_aio.Submission, t_aio.Completion]) { a.cqes = append(a.cqes, c) }
+func (a *simAIO) String() string                               { return "AIO(verif)" }
+func (a *simAIO) Start() error                                 { return nil }
+func (a *simAIO) Stop() error                                  { return nil }
+func (a *simAIO) Shutdown()                                    {}
+func (a *simAIO) Errors() <-chan error                         { return nil }
+func (a *simAIO) Signal(<-chan interface{}) <-chan interface{} { panic("not used") }
+func (a *simAIO) Flush(int64)                                  {}
+func (a *simAIO) EnqueueCQE(c *bus.CQE[t_aio.Submission, t_aio.Completion]) {
+	a.cqes = append(a.cqes, c)
+}
 
 func (a *simAIO) Dispatch(s *t_aio.Submission, cb func(*t_aio.Completion, error)) {
 	a.EnqueueSQE(&bus.SQE[t_aio.Submission, t_aio.Completion]{Id: s.Tags["id"], Submission: s, Callback: cb})
@@ -116,42 +118,43 @@ type sentMsg struct {
 // ---------------------------------------------------------------------------------------
 
 type kcfg struct {
-	CoroutineMaxSize    int   `json:"coroutineMaxSize"`
-	SubmissionBatchSize int   `json:"submissionBatchSize"`
-	CompletionBatchSize int   `json:"completionBatchSize"`
-	PromiseBatchSize    int   `json:"promiseBatchSize"`
-	ScheduleBatchSize   int   `json:"scheduleBatchSize"`
-	TaskBatchSize       int   `json:"taskBatchSize"`
-	TaskEnqueueDelay    int64 `json:"taskEnqueueDelay"` // ms
-	SignalTimeout       int64 `json:"signalTimeout"`    // ms
-	ApiSize             int   `json:"apiSize"`
+	CoroutineMaxSize    int      `json:"coroutineMaxSize"`
+	SubmissionBatchSize int      `json:"submissionBatchSize"`
+	CompletionBatchSize int      `json:"completionBatchSize"`
+	PromiseBatchSize    int      `json:"promiseBatchSize"`
+	ScheduleBatchSize   int      `json:"scheduleBatchSize"`
+	TaskBatchSize       int      `json:"taskBatchSize"`
+	TaskEnqueueDelay    int64    `json:"taskEnqueueDelay"` // ms
+	SignalTimeout       int64    `json:"signalTimeout"`    // ms
+	ApiSize             int      `json:"apiSize"`
 	Background          []string `json:"background"`
 }
 
 type world struct {
-	sysCfg *system.Config // the configuration the kernel was built with
-	cfg     kcfg
-	path    string
-	tr      *tracer
-	aio     *simAIO
-	api     api.API
-	sys     *system.System
-	store   *sqlite.SqliteStore
-	router  *router.Router
-	sender  *sender.Sender
-	plugins map[string]*recPlugin
-	obs     *sql.DB
-	now     int64
-	lastMsg *sentMsg
-	epoch   int // incremented at every boot; responses of earlier epochs are dropped
-	reqKind map[string]string
-	open    map[string]bool // requests without a response yet (this epoch)
-	nreq    int
-	view    M // the last projection read (the driver aims its requests at what exists)
-	chars   map[string]bool // ids whose character sequence has been logged (for search patterns)
-	onReply map[string]func(res *t_api.Response) // follow-up actions of the driver (search traversals)
-	sortIds map[string]map[int64]string
-	meta    map[string]M // extra fields for the submit event of a request (traversal bookkeeping)
+	sysCfg   *system.Config // the configuration the kernel was built with
+	logTicks bool           // record what every tick did about the background coroutines (C11 workloads)
+	cfg      kcfg
+	path     string
+	tr       *tracer
+	aio      *simAIO
+	api      api.API
+	sys      *system.System
+	store    *sqlite.SqliteStore
+	router   *router.Router
+	sender   *sender.Sender
+	plugins  map[string]*recPlugin
+	obs      *sql.DB
+	now      int64
+	lastMsg  *sentMsg
+	epoch    int // incremented at every boot; responses of earlier epochs are dropped
+	reqKind  map[string]string
+	open     map[string]bool // requests without a response yet (this epoch)
+	nreq     int
+	view     M                                    // the last projection read (the driver aims its requests at what exists)
+	chars    map[string]bool                      // ids whose character sequence has been logged (for search patterns)
+	onReply  map[string]func(res *t_api.Response) // follow-up actions of the driver (search traversals)
+	sortIds  map[string]map[int64]string
+	meta     map[string]M // extra fields for the submit event of a request (traversal bookkeeping)
 }
 
 var allBackground = []string{"TimeoutPromises", "SchedulePromises", "TimeoutLocks", "EnqueueTasks", "TimeoutTasks"}
@@ -343,6 +346,10 @@ func (w *world) submit(req *t_api.Request) string {
 func (w *world) tick() {
 	w.aio.now = w.now
 	w.tr.emit(M{"e": "tick", "t": w.now})
+	if !w.logTicks {
+		w.sys.Tick(w.now)
+		return
+	}
 	pre := bgState(w.sys.VerifBackground())
 	w.sys.Tick(w.now)
 	// what the tick did about the background coroutines (judged against Tick.tla)
@@ -571,6 +578,15 @@ func (w *world) exec(batch []*sub, fail string) error {
 		}
 		cmds := batch[i].sqe.Submission.Store.Transaction.Commands
 		for j, cmd := range cmds {
+			if cmd.Kind == t_aio.ReadSchedules && j < len(c.Completion.Store.Results) && c.Completion.Store.Results[j].ReadSchedules != nil {
+				// which schedules a firing cycle took, at the moment it took them
+				ids := []any{}
+				for _, r := range c.Completion.Store.Results[j].ReadSchedules.Records {
+					ids = append(ids, r.Id)
+				}
+				o, bg := w.owner(batch[i])
+				w.tr.emit(M{"e": "due", "t": w.now, "o": o, "bg": bg, "time": cmd.ReadSchedules.NextRunTime, "limit": int64(cmd.ReadSchedules.Limit), "ids": ids})
+			}
 			if cmd.Kind != t_aio.ReadEnqueueableTasks || j >= len(c.Completion.Store.Results) || c.Completion.Store.Results[j].ReadEnqueueableTasks == nil {
 				continue
 			}
@@ -759,7 +775,7 @@ type tracer struct {
 	f       *os.File
 	n       int
 	skipped int
-	last string // JSON of the last projection written
+	last    string // JSON of the last projection written
 }
 
 // withPost attaches the projection; an unchanged projection is written as "same": true
